@@ -7,7 +7,10 @@
    E. when RuntimeError is raised
    F. executed examples on Q, including the two refutations
         - an OPEN chain of four curves is accepted (the last junction is never tested)
-        - a closed loop with two coinciding corners is accepted or rejected depending on the input order *)
+        - a closed loop with two coinciding corners is accepted or rejected depending on the input order
+   G. the REPAIRED search loop_order2 (commit 6667c22): soundness with four junctions, completeness without any
+      separation hypothesis, Err RuntimeError iff no arrangement closes, first closing candidate, agreement with the
+      old search on separated closed loops, and the examples again *)
 From Coq Require Import List Arith Reals Lra Lia Bool ZArith QArith Permutation.
 From SplipyModel Require Import Spec.BSpline Model.Num Model.EdgeLoop Proofs.EvaluateSpec.
 Import ListNotations.
@@ -412,17 +415,17 @@ Proof.
   destruct s as [|a [|b [|c [|d [|e s]]]]]; try discriminate.
   assert (Hnd : NoDup [a;b;c;d]).
   { eapply Permutation_NoDup; [exact Hp|]. repeat constructor; cbn; intuition lia. }
+  inversion Hnd as [|? ? N1 Hnd1]; subst. inversion Hnd1 as [|? ? N2 Hnd2]; subst.
+  inversion Hnd2 as [|? ? N3 _]; subst. clear Hnd Hnd1 Hnd2.
+  cbn [In] in N1, N2, N3.
+  assert (a <> b /\ a <> c /\ a <> d /\ b <> c /\ b <> d /\ c <> d) as (Q1 & Q2 & Q3 & Q4 & Q5 & Q6).
+  { repeat split; intros ->; tauto. }
+  clear N1 N2 N3.
   assert (Hin : forall x, In x [a;b;c;d] -> In x [0;1;2;3]%nat).
   { intros x Hx. eapply Permutation_in; [apply Permutation_sym; exact Hp|exact Hx]. }
   pose proof (Hin a ltac:(cbn; tauto)) as Ha. pose proof (Hin b ltac:(cbn; tauto)) as Hb.
   pose proof (Hin c ltac:(cbn; tauto)) as Hc. pose proof (Hin d ltac:(cbn; tauto)) as Hd.
-  clear Hin Hp Hl.
-  inversion Hnd as [|? ? N1 Hnd1]; subst. inversion Hnd1 as [|? ? N2 Hnd2]; subst.
-  inversion Hnd2 as [|? ? N3 _]; subst. clear Hnd Hnd1 Hnd2.
-  cbn [In] in *.
-  assert (a <> b /\ a <> c /\ a <> d /\ b <> c /\ b <> d /\ c <> d) as (Q1 & Q2 & Q3 & Q4 & Q5 & Q6).
-  { repeat split; intros ->; tauto. }
-  clear N1 N2 N3.
+  clear Hin Hp Hl. cbn [In] in Ha, Hb, Hc, Hd.
   destruct Ha as [<-|[<-|[<-|[<-|[]]]]]; destruct Hb as [<-|[<-|[<-|[<-|[]]]]]; try congruence;
   destruct Hc as [<-|[<-|[<-|[<-|[]]]]]; try congruence;
   destruct Hd as [<-|[<-|[<-|[<-|[]]]]]; try congruence;
@@ -434,6 +437,9 @@ Proof.
   unfold perms4; cbn [In]. intros Hs.
   repeat (destruct Hs as [<-|Hs]; [repeat constructor; lia|]). contradiction.
 Qed.
+
+Lemma Forall2_len {X Y} (R : X -> Y -> Prop) l l' : Forall2 R l l' -> length l = length l'.
+Proof. induction 1; cbn; congruence. Qed.
 
 Definition closed_exact {P A : Type} (l : list (ecurve P A)) : Prop :=
   match l with
@@ -512,7 +518,7 @@ Section Complete.
                  @allclose R NumR rtol atol (Pc p) (Pc q) = Nat.eqb p q).
     { intros p q Hp Hq. destruct (Nat.eqb_spec p q) as [->|Hne]; [apply allclose_R_refl; assumption|].
       apply Hsep; assumption. }
-    pose proof (Forall2_length HF) as Hlen. rewrite combine_length in Hlen.
+    pose proof (Forall2_len _ _ _ HF) as Hlen. rewrite combine_length in Hlen.
     assert (Hs4 : length s = 4%nat).
     { unfold perms4 in Hs; cbn [In] in Hs. repeat (destruct Hs as [<-|Hs]; [reflexivity|]). contradiction. }
     rewrite Hs4, Hlr in Hlen. cbn in Hlen.
@@ -565,3 +571,559 @@ Corollary unit_square_any_arrangement {A : Type} (rd : A -> A) cs s r :
 Proof.
   intros Hp Hr HF. eapply loop_order_complete_perm; eauto; try lra. apply unit_square_separated.
 Qed.
+
+(* ------------------------------------------------------------------------------------------------------- *)
+(* E. when RuntimeError is raised (R)                                                                      *)
+(* ------------------------------------------------------------------------------------------------------- *)
+Lemma allclose_R_false_iff rtol atol a b :
+  @allclose R NumR rtol atol a b = false <-> ~ closeR rtol atol a b.
+Proof.
+  rewrite <- allclose_R. destruct (allclose rtol atol a b); split; try congruence; intros Hn; exfalso; apply Hn; reflexivity.
+Qed.
+
+Section ErrorR.
+  Context {A : Type}.
+  Variable rd : A -> A.
+  Notation curve := (ecurve (list R) A).
+
+  (* the only exception of the four-curve search *)
+  Theorem loop_order_err rtol atol (c0 c1 c2 c3 : curve) e :
+    @loop_order R NumR A rtol atol rd [c0; c1; c2; c3] = Err e -> e = RuntimeError.
+  Proof. apply loop_order_gen_err. Qed.
+
+  (* C15 / ERROR, general form: if for no order of the last three curves and no choice of reversals the three
+     junctions c0 -> x1 -> x2 -> x3 are within tolerance, RuntimeError
+     ('Curves do not form a closed loop (end-points do not match)') is raised. *)
+  Theorem loop_order_no_chain rtol atol (c0 c1 c2 c3 : curve) :
+    (forall u1 u2 u3 b1 b2 b3, Permutation [c1; c2; c3] [u1; u2; u3] ->
+       ~ (junction rtol atol c0 (mrev rd b1 u1) /\ junction rtol atol (mrev rd b1 u1) (mrev rd b2 u2) /\
+          junction rtol atol (mrev rd b2 u2) (mrev rd b3 u3))) ->
+    @loop_order R NumR A rtol atol rd [c0; c1; c2; c3] = Err RuntimeError.
+  Proof.
+    intros Hno. apply loop_order_gen_no_chain. intros used bs Hp Hl Hlk.
+    destruct bs as [|b1 [|b2 [|b3 [|b4 bs]]]]; try discriminate.
+    pose proof (Permutation_length Hp) as Hlen.
+    destruct used as [|u1 [|u2 [|u3 [|u4 used]]]]; try discriminate.
+    apply (Hno u1 u2 u3 b1 b2 b3 Hp). cbn in Hlk. destruct Hlk as (H1 & H2 & H3 & _).
+    unfold junction. rewrite <- !allclose_R. auto.
+  Qed.
+
+  (* ERROR (a): the end of the first curve is not within tolerance of any end point of the other three *)
+  Theorem loop_order_first_end_isolated rtol atol (c0 c1 c2 c3 : curve) :
+    (forall c, In c [c1; c2; c3] ->
+       ~ closeR rtol atol (e_last c0) (e_first c) /\ ~ closeR rtol atol (e_last c0) (e_last c)) ->
+    @loop_order R NumR A rtol atol rd [c0; c1; c2; c3] = Err RuntimeError.
+  Proof.
+    intros Hn. apply loop_order_gen_first_end_isolated. intros c Hc.
+    rewrite !allclose_R_false_iff. apply Hn; exact Hc.
+  Qed.
+
+  (* ERROR (b): one of the last three curves (ck) has both end points out of tolerance of every end point of the
+     other three curves (c0 and "others") *)
+  Definition far_from (rtol atol : R) (c ck : curve) : Prop :=
+    ~ closeR rtol atol (e_first c) (e_first ck) /\ ~ closeR rtol atol (e_first c) (e_last ck) /\
+    ~ closeR rtol atol (e_last c) (e_first ck) /\ ~ closeR rtol atol (e_last c) (e_last ck).
+
+  Theorem loop_order_unreachable rtol atol (c0 c1 c2 c3 ck : curve) others :
+    Permutation [c1; c2; c3] (ck :: others) ->
+    far_from rtol atol c0 ck -> (forall c, In c others -> far_from rtol atol c ck) ->
+    @loop_order R NumR A rtol atol rd [c0; c1; c2; c3] = Err RuntimeError.
+  Proof.
+    intros Hp H0 Ho. apply (loop_order_gen_unreachable _ _ c0 c1 c2 c3 ck others Hp).
+    - unfold unreachable_from. rewrite !allclose_R_false_iff. exact H0.
+    - intros c Hc. unfold unreachable_from. rewrite !allclose_R_false_iff. exact (Ho c Hc).
+  Qed.
+
+  (* FINDING (general form): an OPEN chain is accepted.  If the first three junctions are within tolerance in the
+     given order, the input is returned as the loop, whether or not the end of the fourth curve comes back to the
+     start of the first one. *)
+  Theorem loop_order_open_chain_accepted rtol atol (c0 c1 c2 c3 : curve) :
+    junction rtol atol c0 c1 -> junction rtol atol c1 c2 -> junction rtol atol c2 c3 ->
+    @loop_order R NumR A rtol atol rd [c0; c1; c2; c3] = Ok [c0; c1; c2; c3].
+  Proof.
+    unfold junction. rewrite <- !allclose_R. intros. apply loop_order_gen_open_chain; assumption.
+  Qed.
+End ErrorR.
+
+(* ------------------------------------------------------------------------------------------------------- *)
+(* F. executed examples (Q, default tolerances rtol = 0, atol = 1e-8)                                      *)
+(* ------------------------------------------------------------------------------------------------------- *)
+Section ExamplesQ.
+  Local Open Scope Q_scope.
+  (* payload: the number of the input curve and whether it has been reversed *)
+  Let rdq (x : nat * bool) : nat * bool := (fst x, negb (snd x)).
+  Let crv (id : nat) (a b : list Q) : ecurve (list Q) (nat * bool) := mkEC a b (id, false).
+  Let run := @loop_order Q NumQ (nat * bool) 0 (1 # 100000000) rdq.
+  Let pA : list Q := [0; 0].  Let pB : list Q := [1; 0].
+  Let pC : list Q := [1; 1].  Let pD : list Q := [0; 1].
+  Let pE : list Q := [-1; 2]. Let pF : list Q := [5; 5].
+  Let pG : list Q := [2; 1].
+
+  (* the four sides of the unit square, scrambled (bottom, left, right, top) and partly reversed
+     (left given A->D, right given C->B): bottom, right (reversed), top, left (reversed) *)
+  Example unit_square_scrambled :
+    run [crv 0 pA pB; crv 1 pA pD; crv 2 pC pB; crv 3 pC pD]
+    = Ok [mkEC pA pB (0%nat, false); mkEC pB pC (2%nat, true); mkEC pC pD (3%nat, false); mkEC pD pA (1%nat, true)].
+  Proof. vm_compute. reflexivity. Qed.
+
+  (* already a directed loop: returned unchanged *)
+  Example unit_square_in_order :
+    run [crv 0 pA pB; crv 1 pB pC; crv 2 pC pD; crv 3 pD pA]
+    = Ok [crv 0 pA pB; crv 1 pB pC; crv 2 pC pD; crv 3 pD pA].
+  Proof. vm_compute. reflexivity. Qed.
+
+  (* the first curve ends at (5,5), which is no end point of the others: RuntimeError *)
+  Example no_loop_fails :
+    run [crv 0 pA pF; crv 1 pA pD; crv 2 pC pB; crv 3 pC pD] = Err RuntimeError.
+  Proof. vm_compute. reflexivity. Qed.
+
+  (* REFUTED: "the output is a closed loop".  A -> B -> C -> D -> E with E = (-1,2) far from A is accepted; the end
+     of the last output curve is not within tolerance of the start of the first one (in either argument order). *)
+  Example closed_loop_output_refuted :
+    run [crv 0 pA pB; crv 1 pB pC; crv 2 pC pD; crv 3 pD pE]
+    = Ok [crv 0 pA pB; crv 1 pB pC; crv 2 pC pD; crv 3 pD pE] /\
+    @allclose Q NumQ 0 (1 # 100000000) pE pA = false /\ @allclose Q NumQ 0 (1 # 100000000) pA pE = false.
+  Proof. vm_compute. repeat split; reflexivity. Qed.
+
+  (* REFUTED: "an end point that matches no other end point makes the call fail".  Same open chain, scrambled and
+     partly reversed: (-1,2) and (0,0) each match no other end point, yet the call succeeds. *)
+  Example isolated_endpoint_raises_refuted :
+    run [crv 0 pA pB; crv 1 pE pD; crv 2 pC pB; crv 3 pC pD]
+    = Ok [mkEC pA pB (0%nat, false); mkEC pB pC (2%nat, true); mkEC pC pD (3%nat, false); mkEC pD pE (1%nat, true)].
+  Proof. vm_compute. reflexivity. Qed.
+
+  (* the separation hypothesis of loop_order_complete cannot be dropped: the closed loop A -> B -> G -> B -> A
+     (corners 1 and 3 coincide) is accepted when given in order, and rejected when the curve B -> A is listed second
+     (the search follows it back to A, where nothing continues; it never backtracks) *)
+  Example pinched_loop_in_order_accepted :
+    run [crv 0 pA pB; crv 1 pB pG; crv 2 pG pB; crv 3 pB pA]
+    = Ok [crv 0 pA pB; crv 1 pB pG; crv 2 pG pB; crv 3 pB pA].
+  Proof. vm_compute. reflexivity. Qed.
+  Example complete_without_separation_refuted :
+    run [crv 0 pA pB; crv 3 pB pA; crv 1 pB pG; crv 2 pG pB] = Err RuntimeError.
+  Proof. vm_compute. reflexivity. Qed.
+End ExamplesQ.
+
+(* ------------------------------------------------------------------------------------------------------- *)
+(* G. the repaired search (loop_order2)                                                                     *)
+(* ------------------------------------------------------------------------------------------------------- *)
+Section Generic2.
+  Context {P A : Type}.
+  Variable close : P -> P -> bool.
+  Variable rd : A -> A.
+  Notation curve := (ecurve P A).
+
+  Lemma ec_arrange_mrevs bs (cs : list curve) : ec_arrange rd bs cs = mrevs rd bs cs.
+  Proof. reflexivity. Qed.
+
+  Lemma perms3_perm (c1 c2 c3 : curve) p : In p (perms3 c1 c2 c3) -> Permutation [c1; c2; c3] p.
+  Proof.
+    cbn. intros [<-|[<-|[<-|[<-|[<-|[<-|[]]]]]]].
+    - apply Permutation_refl.
+    - apply perm_skip, perm_swap.
+    - apply perm_swap.
+    - apply (Permutation_cons_app [c2; c3] [] c1). apply Permutation_refl.
+    - apply perm_trans with [c1; c3; c2]; [apply perm_skip, perm_swap|apply perm_swap].
+    - apply (Permutation_cons_app [c3; c2] [] c1). apply perm_swap.
+  Qed.
+
+  Lemma perms3_complete (c1 c2 c3 : curve) used : Permutation [c1; c2; c3] used -> In used (perms3 c1 c2 c3).
+  Proof.
+    intros Hp. pose proof (Permutation_length Hp) as Hl.
+    destruct used as [|u1 [|u2 [|u3 [|u4 used]]]]; try discriminate.
+    assert (Hin : In u1 [c1; c2; c3]).
+    { eapply Permutation_in; [apply Permutation_sym; exact Hp|left; reflexivity]. }
+    cbn [In] in Hin. destruct Hin as [<-|[<-|[<-|[]]]].
+    - apply Permutation_cons_inv in Hp. apply Permutation_length_2_inv in Hp.
+      destruct Hp as [E|E]; inversion E; subst; cbn; tauto.
+    - assert (Hp' : Permutation (c2 :: [c1; c3]) (c2 :: [u2; u3])).
+      { eapply perm_trans; [apply perm_swap|exact Hp]. }
+      apply Permutation_cons_inv in Hp'. apply Permutation_length_2_inv in Hp'.
+      destruct Hp' as [E|E]; inversion E; subst; cbn; tauto.
+    - assert (Hp' : Permutation (c3 :: [c1; c2]) (c3 :: [u2; u3])).
+      { eapply perm_trans; [apply (Permutation_cons_append [c1; c2] c3)|exact Hp]. }
+      apply Permutation_cons_inv in Hp'. apply Permutation_length_2_inv in Hp'.
+      destruct Hp' as [E|E]; inversion E; subst; cbn; tauto.
+  Qed.
+
+  Lemma flags3_complete bs : length bs = 3%nat -> In bs flags3.
+  Proof.
+    destruct bs as [|b1 [|b2 [|b3 [|b4 bs]]]]; try discriminate. intros _.
+    destruct b1, b2, b3; cbn; tauto.
+  Qed.
+  Lemma flags3_len bs : In bs flags3 -> length bs = 3%nat.
+  Proof. cbn. intros H. repeat (destruct H as [<-|H]; [reflexivity|]). contradiction. Qed.
+
+  (* the 48 candidates are exactly the re-orderings of the last three curves with reversal flags *)
+  Lemma candidates2_in c1 c2 c3 (t : list curve) :
+    In t (candidates2 rd c1 c2 c3) <->
+    exists used bs, Permutation [c1; c2; c3] used /\ length bs = 3%nat /\ t = mrevs rd bs used.
+  Proof.
+    unfold candidates2. rewrite in_flat_map. split.
+    - intros (p & Hp & Ht). apply in_map_iff in Ht. destruct Ht as (f & <- & Hf).
+      exists p, f. split; [apply perms3_perm; exact Hp|]. split; [apply flags3_len; exact Hf|reflexivity].
+    - intros (used & bs & Hp & Hl & ->). exists used. split; [apply perms3_complete; exact Hp|].
+      apply in_map_iff. exists bs. split; [reflexivity|apply flags3_complete; exact Hl].
+  Qed.
+
+  (* SOUNDNESS (generic): all four junctions pass *)
+  Theorem loop_order2_gen_sound cs out :
+    loop_order2_gen close rd cs = Ok out ->
+    exists c0 c1 c2 c3 used bs,
+      cs = [c0; c1; c2; c3] /\ Permutation [c1; c2; c3] used /\ length bs = 3%nat /\
+      out = c0 :: mrevs rd bs used /\ closes_list close out = true.
+  Proof.
+    unfold loop_order2_gen.
+    destruct cs as [|c0 [|c1 [|c2 [|c3 [|c4 l]]]]]; try discriminate.
+    destruct (closes4 close c0 c1 c2 c3) eqn:E4.
+    - intros E; inversion E; subst. exists c0, c1, c2, c3, [c1; c2; c3], [false; false; false].
+      repeat split; auto.
+    - destruct (find _ _) as [t|] eqn:Ef; [|discriminate].
+      intros E; inversion E; subst. apply find_some in Ef. destruct Ef as [Hin Hc].
+      apply candidates2_in in Hin. destruct Hin as (used & bs & Hp & Hl & ->).
+      exists c0, c1, c2, c3, used, bs. repeat split; auto.
+  Qed.
+
+  (* COMPLETENESS (generic): no hypothesis on the corners *)
+  Theorem loop_order2_gen_complete c0 c1 c2 c3 used bs :
+    Permutation [c1; c2; c3] used -> length bs = 3%nat ->
+    closes_list close (c0 :: mrevs rd bs used) = true ->
+    exists t, loop_order2_gen close rd [c0; c1; c2; c3] = Ok (c0 :: t) /\ closes_list close (c0 :: t) = true.
+  Proof.
+    intros Hp Hl Hc. unfold loop_order2_gen.
+    destruct (closes4 close c0 c1 c2 c3) eqn:E4; [exists [c1; c2; c3]; split; [reflexivity|exact E4]|].
+    destruct (find _ _) as [t|] eqn:Ef.
+    - apply find_some in Ef. exists t. split; [reflexivity|apply Ef].
+    - exfalso. pose proof (find_none _ _ Ef (mrevs rd bs used)) as Hn. cbv beta in Hn.
+      rewrite Hc in Hn. enough (false = true) by discriminate. symmetry. apply Hn.
+      apply candidates2_in. exists used, bs. auto.
+  Qed.
+
+  Theorem loop_order2_gen_err c0 c1 c2 c3 e :
+    loop_order2_gen close rd [c0; c1; c2; c3] = Err e -> e = RuntimeError.
+  Proof.
+    unfold loop_order2_gen. destruct (closes4 close c0 c1 c2 c3); [discriminate|].
+    destruct (find _ _); [discriminate|]. intros E; inversion E; reflexivity.
+  Qed.
+
+  (* ERROR (generic): RuntimeError exactly when no arrangement of the last three curves closes *)
+  Theorem loop_order2_gen_err_iff c0 c1 c2 c3 :
+    loop_order2_gen close rd [c0; c1; c2; c3] = Err RuntimeError <->
+    (forall used bs, Permutation [c1; c2; c3] used -> length bs = 3%nat ->
+       closes_list close (c0 :: mrevs rd bs used) = false).
+  Proof.
+    split.
+    - intros E used bs Hp Hl. destruct (closes_list close (c0 :: mrevs rd bs used)) eqn:Hc; [|reflexivity].
+      destruct (loop_order2_gen_complete c0 c1 c2 c3 used bs Hp Hl Hc) as (t & Ht & _). congruence.
+    - intros Hno. destruct (loop_order2_gen close rd [c0; c1; c2; c3]) as [out|e] eqn:E.
+      + exfalso. destruct (loop_order2_gen_sound _ _ E) as (d0 & d1 & d2 & d3 & used & bs & Hcs & Hp & Hl & -> & Hc).
+        inversion Hcs; subst. rewrite (Hno used bs Hp Hl) in Hc. discriminate.
+      + f_equal. eapply loop_order2_gen_err; exact E.
+  Qed.
+
+  Lemma find_first {X} (f : X -> bool) l x :
+    find f l = Some x ->
+    exists l1 l2, l = l1 ++ x :: l2 /\ f x = true /\ forall y, In y l1 -> f y = false.
+  Proof.
+    induction l as [|a l IH]; cbn [find]; [discriminate|].
+    destruct (f a) eqn:Ea.
+    - intros E; inversion E; subst. exists [], l. repeat split; auto. intros y [].
+    - intros E. destruct (IH E) as (l1 & l2 & -> & Hx & Hl1). exists (a :: l1), l2.
+      repeat split; auto. intros y [<-|Hy]; auto.
+  Qed.
+
+  (* CHOICE (generic): the input itself if it closes, otherwise the first closing candidate in the order of the
+     two nested loops (candidates2 = 6 orders x 8 flag triples, explicit in Model/EdgeLoop.v) *)
+  Theorem loop_order2_gen_first c0 c1 c2 c3 out :
+    loop_order2_gen close rd [c0; c1; c2; c3] = Ok out ->
+    (closes4 close c0 c1 c2 c3 = true /\ out = [c0; c1; c2; c3]) \/
+    (closes4 close c0 c1 c2 c3 = false /\
+     exists l1 t l2, candidates2 rd c1 c2 c3 = l1 ++ t :: l2 /\ out = c0 :: t /\
+       closes_list close (c0 :: t) = true /\ forall t', In t' l1 -> closes_list close (c0 :: t') = false).
+  Proof.
+    unfold loop_order2_gen. destruct (closes4 close c0 c1 c2 c3).
+    - intros E; inversion E; subst. left; auto.
+    - destruct (find _ _) as [t|] eqn:Ef; [|discriminate]. intros E; inversion E; subst.
+      right. split; [reflexivity|]. destruct (find_first _ _ _ Ef) as (l1 & l2 & Hl & Hc & Hf).
+      exists l1, t, l2. auto.
+  Qed.
+End Generic2.
+
+Section Rename2.
+  Context {P Q A : Type}.
+  Variable closeP : P -> P -> bool.
+  Variable closeQ : Q -> Q -> bool.
+  Variable rd : A -> A.
+  Variable h : P -> Q.
+  Variable D : P -> Prop.
+  Hypothesis Hh : forall p q, D p -> D q -> closeQ (h p) (h q) = closeP p q.
+
+  Lemma closes_list_rename (l : list (ecurve P A)) : Forall (inD D) l ->
+    closes_list closeQ (map (ec_map h) l) = closes_list closeP l.
+  Proof.
+    intros Hl. destruct l as [|c0 [|c1 [|c2 [|c3 [|c4 l]]]]]; try reflexivity.
+    inversion Hl as [|? ? [? ?] Hl1]; subst. inversion Hl1 as [|? ? [? ?] Hl2]; subst.
+    inversion Hl2 as [|? ? [? ?] Hl3]; subst. inversion Hl3 as [|? ? [? ?] _]; subst.
+    cbn [map closes_list]. unfold closes4. cbn [ec_map e_first e_last].
+    rewrite !Hh by assumption. reflexivity.
+  Qed.
+
+  Lemma find_rename (c0 : ecurve P A) (cands : list (list (ecurve P A))) : inD D c0 -> Forall (Forall (inD D)) cands ->
+    find (fun t => closes_list closeQ (ec_map h c0 :: t)) (map (map (ec_map h)) cands) =
+    option_map (map (ec_map h)) (find (fun t => closes_list closeP (c0 :: t)) cands).
+  Proof.
+    intros H0 Hc. induction Hc as [|t cands Ht Hc IH]; [reflexivity|].
+    cbn [map find]. change (ec_map h c0 :: map (ec_map h) t) with (map (ec_map h) (c0 :: t)).
+    rewrite closes_list_rename by (constructor; assumption).
+    destruct (closes_list closeP (c0 :: t)); [reflexivity|exact IH].
+  Qed.
+
+  Lemma mrevs_inD bs (used : list (ecurve P A)) : Forall (inD D) used -> Forall (inD D) (mrevs rd bs used).
+  Proof.
+    intros Hu. revert bs. induction Hu as [|u used Hu1 Hu IH]; intros [|b bs]; cbn; try constructor; [|apply IH].
+    destruct Hu1. destruct b; split; assumption.
+  Qed.
+
+  Lemma loop_order2_gen_rename (cs : list (ecurve P A)) : Forall (inD D) cs ->
+    loop_order2_gen closeQ rd (map (ec_map h) cs) = res_map (map (ec_map h)) (loop_order2_gen closeP rd cs).
+  Proof.
+    intros Hcs. destruct cs as [|c0 [|c1 [|c2 [|c3 [|c4 l]]]]]; try reflexivity.
+    pose proof (closes_list_rename _ Hcs) as H4. cbn [map closes_list] in H4.
+    inversion Hcs as [|? ? H0 Hcs1]; subst.
+    cbn [map]. unfold loop_order2_gen. rewrite H4.
+    destruct (closes4 closeP c0 c1 c2 c3); [reflexivity|].
+    change (candidates2 rd (ec_map h c1) (ec_map h c2) (ec_map h c3))
+      with (map (map (ec_map h)) (candidates2 rd c1 c2 c3)).
+    rewrite find_rename; [|exact H0|].
+    - destruct (find _ (candidates2 rd c1 c2 c3)); reflexivity.
+    - apply Forall_forall. intros t Ht. apply candidates2_in in Ht.
+      destruct Ht as (used & bs & Hp & _ & ->). apply mrevs_inD.
+      apply Forall_forall. intros x Hx. apply Permutation_sym in Hp.
+      pose proof (Permutation_in _ Hp Hx) as Hx'. rewrite Forall_forall in Hcs1. apply Hcs1; exact Hx'.
+  Qed.
+End Rename2.
+
+Section NewR.
+  Context {A : Type}.
+  Variable rd : A -> A.
+  Notation curve := (ecurve (list R) A).
+
+  Lemma closes_list_R rtol atol (l : list curve) :
+    closes_list (@allclose R NumR rtol atol) l = true <-> closed_loop rtol atol l.
+  Proof.
+    destruct l as [|c0 [|c1 [|c2 [|c3 [|c4 l]]]]]; cbn [closes_list closed_loop];
+      try (split; [discriminate|contradiction]).
+    unfold closes4, junction. rewrite !andb_true_iff, !allclose_R. tauto.
+  Qed.
+
+  (* C15 / SOUNDNESS of the repaired search: the first input curve first and unreversed, the other three in some
+     order and each possibly reversed, and ALL FOUR junctions (cyclically) within tolerance *)
+  Theorem loop_order2_sound rtol atol cs out :
+    @loop_order2 R NumR A rtol atol rd cs = Ok out ->
+    exists c0 c1 c2 c3 used b1 b2 b3 x1 x2 x3,
+      cs = [c0; c1; c2; c3] /\
+      Permutation [c1; c2; c3] used /\
+      [x1; x2; x3] = mrevs rd [b1; b2; b3] used /\
+      out = [c0; x1; x2; x3] /\
+      closed_loop rtol atol [c0; x1; x2; x3].
+  Proof.
+    unfold loop_order2. intros E.
+    destruct (loop_order2_gen_sound _ _ _ _ E) as (c0 & c1 & c2 & c3 & used & bs & -> & Hp & Hl & -> & Hc).
+    destruct bs as [|b1 [|b2 [|b3 [|b4 bs]]]]; try discriminate.
+    pose proof (Permutation_length Hp) as Hlen.
+    destruct used as [|u1 [|u2 [|u3 [|u4 used]]]]; try discriminate.
+    exists c0, c1, c2, c3, [u1; u2; u3], b1, b2, b3, (mrev rd b1 u1), (mrev rd b2 u2), (mrev rd b3 u3).
+    apply closes_list_R in Hc.
+    split; [reflexivity|split; [exact Hp|split; [reflexivity|split; [reflexivity|exact Hc]]]].
+  Qed.
+
+  (* C15 / COMPLETENESS of the repaired search, NO separation hypothesis: if some order [u1;u2;u3] of the last three
+     curves and some directions b1 b2 b3 give a loop whose four junctions are within tolerance, the search succeeds
+     (and returns a closed loop, by soundness) *)
+  Theorem loop_order2_complete rtol atol (c0 c1 c2 c3 u1 u2 u3 : curve) b1 b2 b3 :
+    Permutation [c1; c2; c3] [u1; u2; u3] ->
+    closed_loop rtol atol [c0; mrev rd b1 u1; mrev rd b2 u2; mrev rd b3 u3] ->
+    exists x1 x2 x3,
+      @loop_order2 R NumR A rtol atol rd [c0; c1; c2; c3] = Ok [c0; x1; x2; x3] /\
+      closed_loop rtol atol [c0; x1; x2; x3].
+  Proof.
+    intros Hp Hc. apply closes_list_R in Hc.
+    destruct (loop_order2_gen_complete (allclose rtol atol) rd c0 c1 c2 c3 [u1; u2; u3] [b1; b2; b3] Hp eq_refl Hc)
+      as (t & Ht & Hct).
+    destruct t as [|x1 [|x2 [|x3 [|x4 t]]]]; try discriminate.
+    exists x1, x2, x3. split; [exact Ht|]. apply closes_list_R; exact Hct.
+  Qed.
+
+  Theorem loop_order2_err rtol atol (c0 c1 c2 c3 : curve) e :
+    @loop_order2 R NumR A rtol atol rd [c0; c1; c2; c3] = Err e -> e = RuntimeError.
+  Proof. apply loop_order2_gen_err. Qed.
+
+  (* C15 / ERROR of the repaired search: RuntimeError exactly when no order and no directions of the last three
+     curves give a closed loop *)
+  Theorem loop_order2_err_iff rtol atol (c0 c1 c2 c3 : curve) :
+    @loop_order2 R NumR A rtol atol rd [c0; c1; c2; c3] = Err RuntimeError <->
+    (forall u1 u2 u3 b1 b2 b3, Permutation [c1; c2; c3] [u1; u2; u3] ->
+       ~ closed_loop rtol atol [c0; mrev rd b1 u1; mrev rd b2 u2; mrev rd b3 u3]).
+  Proof.
+    unfold loop_order2. rewrite loop_order2_gen_err_iff. split.
+    - intros Hno u1 u2 u3 b1 b2 b3 Hp Hc. apply closes_list_R in Hc.
+      specialize (Hno [u1; u2; u3] [b1; b2; b3] Hp eq_refl). cbn in Hno, Hc. congruence.
+    - intros Hno used bs Hp Hl.
+      destruct bs as [|b1 [|b2 [|b3 [|b4 bs]]]]; try discriminate.
+      pose proof (Permutation_length Hp) as Hlen.
+      destruct used as [|u1 [|u2 [|u3 [|u4 used]]]]; try discriminate.
+      destruct (closes_list _ _) eqn:Hc; [|reflexivity].
+      exfalso. apply (Hno u1 u2 u3 b1 b2 b3 Hp). apply closes_list_R. exact Hc.
+  Qed.
+
+  (* in particular an OPEN chain is now rejected: if the fourth junction can be closed by no arrangement ... *)
+  Corollary loop_order2_open_chain_rejected rtol atol (c0 c1 c2 c3 : curve) :
+    (forall c, In c [c1; c2; c3] ->
+       ~ closeR rtol atol (e_first c) (e_first c0) /\ ~ closeR rtol atol (e_last c) (e_first c0)) ->
+    @loop_order2 R NumR A rtol atol rd [c0; c1; c2; c3] = Err RuntimeError.
+  Proof.
+    intros Hn. apply loop_order2_err_iff. intros u1 u2 u3 b1 b2 b3 Hp (_ & _ & _ & J4).
+    assert (Hin : In u3 [c1; c2; c3]).
+    { eapply Permutation_in; [apply Permutation_sym; exact Hp|]. right; right; left; reflexivity. }
+    destruct (Hn u3 Hin) as [N1 N2]. unfold junction in J4. destruct b3; cbn in J4; tauto.
+  Qed.
+
+  (* C15 / CHOICE of the repaired search: the input if it is a closed loop; otherwise the FIRST candidate, in the
+     order (1,2,3) (1,3,2) (2,1,3) (2,3,1) (3,1,2) (3,2,1) x FFF FFT FTF FTT TFF TFT TTF TTT, that is a closed loop *)
+  Theorem loop_order2_first rtol atol (c0 c1 c2 c3 : curve) out :
+    @loop_order2 R NumR A rtol atol rd [c0; c1; c2; c3] = Ok out ->
+    (closed_loop rtol atol [c0; c1; c2; c3] /\ out = [c0; c1; c2; c3]) \/
+    (~ closed_loop rtol atol [c0; c1; c2; c3] /\
+     exists l1 t l2, candidates2 rd c1 c2 c3 = l1 ++ t :: l2 /\ out = c0 :: t /\
+       closed_loop rtol atol (c0 :: t) /\ forall t', In t' l1 -> ~ closed_loop rtol atol (c0 :: t')).
+  Proof.
+    intros E. destruct (loop_order2_gen_first _ _ _ _ _ _ _ E) as [[H4 ->]|[H4 (l1 & t & l2 & Hl & -> & Hc & Hf)]].
+    - left. split; [|reflexivity]. apply closes_list_R. exact H4.
+    - right. split.
+      + intros Hc'. apply closes_list_R in Hc'. cbn [closes_list] in Hc'. congruence.
+      + exists l1, t, l2. repeat split; auto; [apply closes_list_R; exact Hc|].
+        intros t' Ht' Hc'. apply closes_list_R in Hc'. rewrite (Hf t' Ht') in Hc'. discriminate.
+  Qed.
+End NewR.
+
+(* the order of the candidates, displayed on names *)
+Example candidates2_order :
+  map (map e_data) (candidates2 (fun x : nat * bool => (fst x, negb (snd x)))
+                                (mkEC tt tt (1%nat, false)) (mkEC tt tt (2%nat, false)) (mkEC tt tt (3%nat, false)))
+  = flat_map (fun p => map (fun f => combine p f)
+                [[false;false;false];[false;false;true];[false;true;false];[false;true;true];
+                 [true;false;false];[true;false;true];[true;true;false];[true;true;true]])
+       [[1;2;3];[1;3;2];[2;1;3];[2;3;1];[3;1;2];[3;2;1]]%nat.
+Proof. vm_compute. reflexivity. Qed.
+
+(* relation to the old search: on the four sides of a loop with separated corners (the hypotheses of
+   loop_order_complete), in any of the 384 arrangements, both searches return the same result *)
+Section Agree.
+  Context {A : Type}.
+  Variable rd : A -> A.
+  Variable Pc : nat -> list R.
+
+  Lemma sym_agree s r (ds : list A) :
+    In s perms4 -> length r = 4%nat -> length ds = 4%nat ->
+    loop_order2_gen Nat.eqb rd (sym_cs (combine s r) ds) = loop_order_gen Nat.eqb rd (sym_cs (combine s r) ds).
+  Proof.
+    intros Hs Hr Hd.
+    destruct r as [|b0 [|b1 [|b2 [|b3 [|b4 r]]]]]; try discriminate.
+    destruct ds as [|d0 [|d1 [|d2 [|d3 [|d4 ds]]]]]; try discriminate.
+    unfold perms4 in Hs; cbn [In] in Hs.
+    repeat (destruct Hs as [<-|Hs]; [destruct b0, b1, b2, b3; vm_compute; reflexivity|]).
+    contradiction.
+  Qed.
+
+  Theorem loop_order2_agrees_separated rtol atol (cs : list (ecurve (list R) A)) s r :
+    0 <= atol -> 0 <= rtol ->
+    (forall i j, (i < 4)%nat -> (j < 4)%nat -> i <> j -> @allclose R NumR rtol atol (Pc i) (Pc j) = false) ->
+    In s perms4 -> length r = 4%nat ->
+    Forall2 (is_side Pc) cs (combine s r) ->
+    @loop_order2 R NumR A rtol atol rd cs = @loop_order R NumR A rtol atol rd cs.
+  Proof.
+    intros Ha Hr Hsep Hs Hlr HF.
+    assert (Hh : forall p q, (p < 4)%nat -> (q < 4)%nat ->
+                 @allclose R NumR rtol atol (Pc p) (Pc q) = Nat.eqb p q).
+    { intros p q Hp Hq. destruct (Nat.eqb_spec p q) as [->|Hne]; [apply allclose_R_refl; assumption|].
+      apply Hsep; assumption. }
+    pose proof (Forall2_len _ _ _ HF) as Hlen. rewrite combine_length in Hlen.
+    assert (Hs4 : length s = 4%nat).
+    { unfold perms4 in Hs; cbn [In] in Hs. repeat (destruct Hs as [<-|Hs]; [reflexivity|]). contradiction. }
+    rewrite Hs4, Hlr in Hlen. cbn in Hlen.
+    assert (HD : Forall (inD (A:=A) (fun i => (i < 4)%nat)) (sym_cs (combine s r) (map e_data cs))).
+    { apply sym_inD. apply perms4_lt in Hs. clear - Hs. revert r.
+      induction Hs as [|k s Hk Hs IH]; intros [|b r]; cbn; constructor; [exact Hk|apply IH]. }
+    rewrite (is_side_sym Pc cs _ HF). unfold loop_order2, loop_order.
+    rewrite (loop_order2_gen_rename Nat.eqb (allclose rtol atol) rd Pc (fun i => (i < 4)%nat) Hh _ HD).
+    rewrite (loop_order_gen_rename Nat.eqb (allclose rtol atol) rd Pc (fun i => (i < 4)%nat) Hh _ HD).
+    rewrite sym_agree; auto. rewrite map_length; exact Hlen.
+  Qed.
+End Agree.
+
+Section ExamplesQ2.
+  Local Open Scope Q_scope.
+  Let rdq (x : nat * bool) : nat * bool := (fst x, negb (snd x)).
+  Let crv (id : nat) (a b : list Q) : ecurve (list Q) (nat * bool) := mkEC a b (id, false).
+  Let run := @loop_order Q NumQ (nat * bool) 0 (1 # 100000000) rdq.
+  Let run2 := @loop_order2 Q NumQ (nat * bool) 0 (1 # 100000000) rdq.
+  Let pA : list Q := [0; 0].  Let pB : list Q := [1; 0].
+  Let pC : list Q := [1; 1].  Let pD : list Q := [0; 1].
+  Let pE : list Q := [-1; 2]. Let pF : list Q := [5; 5].
+  Let pG : list Q := [2; 1].
+
+  Example unit_square_scrambled2 :
+    run2 [crv 0 pA pB; crv 1 pA pD; crv 2 pC pB; crv 3 pC pD]
+    = Ok [mkEC pA pB (0%nat, false); mkEC pB pC (2%nat, true); mkEC pC pD (3%nat, false); mkEC pD pA (1%nat, true)].
+  Proof. vm_compute. reflexivity. Qed.
+
+  Example unit_square_in_order2 :
+    run2 [crv 0 pA pB; crv 1 pB pC; crv 2 pC pD; crv 3 pD pA]
+    = Ok [crv 0 pA pB; crv 1 pB pC; crv 2 pC pD; crv 3 pD pA].
+  Proof. vm_compute. reflexivity. Qed.
+
+  Example no_loop_fails2 :
+    run2 [crv 0 pA pF; crv 1 pA pD; crv 2 pC pB; crv 3 pC pD] = Err RuntimeError.
+  Proof. vm_compute. reflexivity. Qed.
+
+  (* the open chain A -> B -> C -> D -> E, in order and scrambled: accepted by the old search, rejected now *)
+  Example open_chain_rejected2 :
+    run2 [crv 0 pA pB; crv 1 pB pC; crv 2 pC pD; crv 3 pD pE] = Err RuntimeError /\
+    run2 [crv 0 pA pB; crv 1 pE pD; crv 2 pC pB; crv 3 pC pD] = Err RuntimeError.
+  Proof. vm_compute. split; reflexivity. Qed.
+
+  (* the pinched loop A -> B -> G -> B -> A in both orders: both accepted now, with the same loop *)
+  Example pinched_loop_both_orders2 :
+    run2 [crv 0 pA pB; crv 1 pB pG; crv 2 pG pB; crv 3 pB pA]
+    = Ok [crv 0 pA pB; crv 1 pB pG; crv 2 pG pB; crv 3 pB pA] /\
+    run2 [crv 0 pA pB; crv 3 pB pA; crv 1 pB pG; crv 2 pG pB]
+    = Ok [crv 0 pA pB; crv 1 pB pG; crv 2 pG pB; crv 3 pB pA].
+  Proof. vm_compute. split; reflexivity. Qed.
+
+  (* the triangle with a degenerate fourth edge: AB, CA, BC, CC.  Old search: RuntimeError (it takes BC, then CA, and
+     is stuck at A with CC left).  Repaired search: AB, BC, CC, CA. *)
+  Example degenerate_edge_triangle2 :
+    run [crv 0 pA pB; crv 1 pC pA; crv 2 pB pC; crv 3 pC pC] = Err RuntimeError /\
+    run2 [crv 0 pA pB; crv 1 pC pA; crv 2 pB pC; crv 3 pC pC]
+    = Ok [crv 0 pA pB; crv 2 pB pC; crv 3 pC pC; crv 1 pC pA].
+  Proof. vm_compute. split; reflexivity. Qed.
+End ExamplesQ2.
+
+Print Assumptions loop_order_sound.
+Print Assumptions loop_order_complete.
+Print Assumptions loop_order_complete_perm.
+Print Assumptions unit_square_any_arrangement.
+Print Assumptions loop_order_no_chain.
+Print Assumptions loop_order_first_end_isolated.
+Print Assumptions loop_order_unreachable.
+Print Assumptions loop_order_open_chain_accepted.
+Print Assumptions closed_loop_output_refuted.
+Print Assumptions complete_without_separation_refuted.
+Print Assumptions loop_order2_sound.
+Print Assumptions loop_order2_complete.
+Print Assumptions loop_order2_err_iff.
+Print Assumptions loop_order2_open_chain_rejected.
+Print Assumptions loop_order2_first.
+Print Assumptions loop_order2_agrees_separated.
+Print Assumptions open_chain_rejected2.
+Print Assumptions degenerate_edge_triangle2.
